@@ -223,6 +223,29 @@ def tree2parameter(
         raise exceptions.UnknownTreeTypeError(datatype=s.data, atom="Parameter")
 
 
+def has_conflicting_definitions(first: atoms.Atom, second: atoms.Atom) -> bool:
+    """Check if two atoms with the same name define different things
+
+    Parameters
+    ----------
+    first : atoms.Atom
+        The first definition
+    second : atoms.Atom
+        The second definition
+
+    Returns
+    -------
+    bool
+        True if the two atoms are of different kinds, or if
+        their values (for assignments the expression trees) differ
+    """
+    if type(first) is not type(second):
+        return True
+    if isinstance(first.value, atoms.Expression) and isinstance(second.value, atoms.Expression):
+        return first.value.tree != second.value.tree
+    return first.value != second.value
+
+
 class TreeToODE(lark.Transformer):
     """Transform a lark tree to an ODE
 
@@ -310,6 +333,7 @@ class TreeToODE(lark.Transformer):
         # breakpoint()
 
         comments = []
+        definitions: dict[str, atoms.Atom] = {}
         for line in s:  # Each line in the block
             if isinstance(line, atoms.Comment):
                 comments.append(line)
@@ -320,6 +344,14 @@ class TreeToODE(lark.Transformer):
                 continue
 
             for atom in line:  # State, Parameters or Assignment
+                # The atoms are collected in sets below, and two assignments
+                # with different right hand sides can compare equal (the
+                # expression tree is not part of the comparison). Make sure
+                # that conflicting definitions are not silently merged.
+                previous = definitions.setdefault(atom.name, atom)
+                if has_conflicting_definitions(previous, atom):
+                    raise exceptions.DuplicateSymbolError({atom.name})
+
                 for component in atom.components:
                     components[component][mapping[type(atom)]].add(atom)
 
